@@ -461,6 +461,13 @@ func (s *Syncer) startupSync(state DPSyncerState) error {
 		return err
 	}
 
+	// A previous attempt at the first sync may have failed after it adopted
+	// service IDs from the dataplane. Forget those: what follows derives them
+	// again from what is in the dataplane now, and stale entries would bypass the
+	// duplicate-ID check in startupBuildPrev.
+	s.prevSvcMap = make(map[svcKey]svcInfo)
+	s.prevEpsMap = make(k8sp.EndpointsMap)
+
 	// Try to build the previous maps based on the current state and what is in bpf maps.
 	// Once we have the previous map, we can apply the current state as if we never
 	// restarted and apply only the diff using the regular code path.
